@@ -35,7 +35,7 @@ fn parse_pair(line: &str) -> Option<Pair> {
 
 fn op(ctx: &numbat::Context, out: &mut Out, name: &str, a: &QDesc, b: &QDesc) -> String {
     let ans = match catch(std::panic::AssertUnwindSafe(|| ctx.verif_quantity_op(name, a, Some(b)))) {
-        Ok(s) => s,
+        Ok(s) => canon_nan(&s),
         Err(p) => format!("panic {}", p),
     };
     out.line(&format!("{} {} {}", name, q_text(a), q_text(b)), &ans);
